@@ -672,13 +672,16 @@ class SubmitStubs:
         me = self
 
         def launch(cmd, text, k):
-            me.procs.append((cmd, k.get("cwd")))
+            cwd = k.get("cwd")
+            if cwd is not None and not os.path.isdir(cwd):       # what the real Popen does
+                raise FileNotFoundError(2, "No such file or directory", str(cwd))
+            me.procs.append((cmd, cwd, bool(k.get("shell"))))
             line = cmd if isinstance(cmd, str) else " ".join(str(c) for c in cmd)
             out = "Job <4711> is submitted to queue <q>.\n" if "bsub" in line else "Submitted batch job 4711\n"
             return _Proc(text, out)
 
         def start_process(cmd, cwd=None, env=None, shell=True, **k):
-            return launch(cmd, True, {"cwd": cwd})
+            return launch(cmd, True, {"cwd": cwd, "shell": shell and not isinstance(cmd, list)})
 
         def popen(cmd, *a, **k):
             return launch(cmd, bool(k.get("universal_newlines") or k.get("text") or k.get("encoding")), k)
@@ -786,8 +789,16 @@ SUB_CHOICES = {
     "queue": (None, None, "otherq"),
     "restart": ("", "", "true"),
 }
+_MD5 = "0a1b2c3d4e5f60718293a4b5c6d7e8f9"
+# (step, combination string, nickname): plain; characters make_safe_path keeps that a shell treats
+# specially, blanks (sanitised to '_' in the workspace, kept in the file names); raw labels with
+# '/', "..", blanks under --hashws (workspace and file names come from the digest)
 SUB_NAMES = (("run", None, None), ("run", "X.1", None), ("post-proc", "SIZE.10.ITER.3", None),
-             ("run", "X.1", "0a1b2c3d4e5f60718293a4b5c6d7e8f9"))
+             ("run", "FUNC.f(x)", None), ("f(x)", None, None), ("run", "a b", None), ("my step", None, None),
+             ("run", "X.1", _MD5), ("run", "train/a", _MD5), ("run", "../shared", _MD5),
+             ("run", "a b.c d", _MD5), ("run", "f(x)/..", _MD5))
+# last component of the (real) study directory: blanks, quotes, $ & ; ( ) are legal in OUTPUT_PATH
+SUB_ROOTS = ("study", "study", "my study", "st'udy", 'st"udy', "st$udy", "a&b", "a;b", "st(1)", "a b$HOME;c")
 
 
 def gen_submit_cases(rng, tier):
@@ -811,9 +822,58 @@ def gen_submit_cases(rng, tier):
                         run[k] = v
             step, combo, nick = rng.choice(SUB_NAMES)
             out.append({"kind": "submit", "backend": be, "run": run, "step": step, "combo": combo, "nick": nick,
+                        "root": rng.choice(SUB_ROOTS),
                         "batch_reservation": rng.choice((None, None, "batchres")),
                         "launcher": rng.random() < 0.5})
     return out
+
+
+def shell_words(cmd):
+    """The words a POSIX shell makes of a simple command line, or None when the
+    line is not a simple command with literal words: an unquoted ( ) ; & | ` $ * ?
+    [ ] { } ~ # ! > or a $ / ` inside double quotes, or an unterminated quote.
+    `<` (bsub reads the script from stdin) is returned as a word of its own."""
+    words, cur, has, i, n = [], "", False, 0, len(cmd)
+    while i < n:
+        c = cmd[i]
+        if c in " \t\n":
+            if has:
+                words.append(cur)
+            cur, has = "", False
+        elif c == "'":
+            j = cmd.find("'", i + 1)
+            if j < 0:
+                return None
+            cur, has, i = cur + cmd[i + 1:j], True, j
+        elif c == '"':
+            i += 1
+            while i < n and cmd[i] != '"':
+                if cmd[i] in "$`":
+                    return None
+                if cmd[i] == "\\" and i + 1 < n and cmd[i + 1] in '"\\$`':
+                    i += 1
+                cur += cmd[i]
+                i += 1
+            if i >= n:
+                return None
+            has = True
+        elif c == "\\":
+            if i + 1 >= n:
+                return None
+            cur, has, i = cur + cmd[i + 1], True, i + 1
+        elif c == "<":
+            if has:
+                words.append(cur)
+            words.append("<")
+            cur, has = "", False
+        elif c in "();&|`$*?[]{}~#!>":
+            return None
+        else:
+            cur, has = cur + c, True
+        i += 1
+    if has:
+        words.append(cur)
+    return words
 
 
 def _opt_values(tokens, shorts, longs):
@@ -850,14 +910,16 @@ def _header_tokens(script, tag):
 
 def run_submit(case, scratch):
     """One submit case against the real adapter; returns the observation."""
-    import shlex
     I = _impl()
     base = os.path.join(scratch, "s")
     shutil.rmtree(base, ignore_errors=True)
-    root = os.path.join(base, *NEST)
-    obs = {"exc": None, "ws": None, "cwd": None, "outs": [], "started": 0, "where": None}
+    root = os.path.join(base, *(NEST[:-1] + (case.get("root") or "study",)))
+    obs = {"exc": None, "phase": None, "ws": None, "cwd": None, "outs": [], "started": 0, "where": None,
+           "script": None, "script_real": None}
+    ws = script = None
     try:
         with SubmitStubs() as stubs:
+            phase = "setup"
             try:
                 from maestrowf.datastructures.core import StudyStep
                 parts = [case["step"]] + ([case["nick"] or case["combo"]] if case["combo"] else [])
@@ -894,60 +956,102 @@ def run_submit(case, scratch):
                     open(script, "w").write("#!/bin/bash\ntrue\n")
                     wt = step.run.get("walltime")
                     secs = 600 if isinstance(wt, str) and ":" in wt else (int(float(wt) * 60) if str(wt).isdigit() else 0)
+                    phase = "submit"
                     cls.submit(int(step.run.get("nodes") or 1), int(step.run.get("procs") or 1), 1, script, ws, secs,
                                ngpus=int(step.run.get("gpus") or 0), job_name=step.name,
                                force_broker=bool(step.run.get("nested")), waitable=False)
                 else:
+                    phase = "write_script"
                     _, script, _ = adapter.write_script(ws, step)
                     del stubs.procs[:], stubs.jobspecs[:], stubs.opened[:]
+                    phase = "submit"
                     adapter.submit(step, script, ws)
             except Exception as e:
-                obs["exc"] = type(e).__name__
+                obs["exc"], obs["phase"] = "%s: %s" % (type(e).__name__, str(e)[:120].replace(root, ROOT)), phase
             procs, jobspecs, opened = list(stubs.procs), list(stubs.jobspecs), list(stubs.opened)
         canon = lambda p: p if p is None else _canon(str(p), root, "")     # noqa: E731
-        obs["ws"] = canon(locals().get("ws"))
+        obs["ws"], obs["script_real"] = canon(ws), canon(script)
         obs["started"] = len(procs) + len(jobspecs)
-        script = locals().get("script")
         if jobspecs:
             js = jobspecs[-1]
             obs["where"] = "jobspec.cwd"
             obs["cwd"] = canon(js.cwd)
             obs["outs"] = [canon(str(x).replace("{{id}}", "4711")) for x in (js.stdout, js.stderr) if x]
+            cmdl = list(js.command) if isinstance(js.command, (list, tuple)) else [js.command]
+            obs["script"] = canon(cmdl[-1]) if cmdl else None
         elif procs:
-            cmd, kw_cwd = procs[-1]
-            toks = list(map(str, cmd)) if isinstance(cmd, (list, tuple)) else shlex.split(cmd.replace("<", " < "))
-            prog = os.path.basename(toks[0]) if toks else ""
-            dirs, outs = [], []
-            if prog == "sbatch":
-                htoks = _header_tokens(script, "#SBATCH") if script else []
-                dirs = _opt_values(htoks, ("-D",), ("--chdir", "--workdir")) + \
-                    _opt_values(toks, ("-D",), ("--chdir", "--workdir"))
-                outs = _opt_values(htoks + toks, ("-o", "-e"), ("--output", "--error"))
-            elif prog == "bsub":
-                htoks = _header_tokens(script, "#BSUB") if script else []
-                dirs = _opt_values(htoks, ("-cwd",), ()) + _opt_values(toks, ("-cwd",), ())
-                outs = _opt_values(htoks + toks, ("-o", "-e", "-oo", "-eo"), ())
-            if dirs:                     # the command line wins over the header, the last option wins
-                d = dirs[-1]
-                obs["where"] = "directory option"
-                obs["cwd"] = canon(d if os.path.isabs(d) or kw_cwd is None else os.path.join(kw_cwd, d))
-                if not os.path.isabs(d) and kw_cwd is None:
-                    obs["cwd"] = None
+            cmd, kw_cwd, shell = procs[-1]
+            if isinstance(cmd, (list, tuple)):
+                toks = [str(c) for c in cmd]
+            elif shell:
+                toks = shell_words(cmd)          # None: a shell does not read this line as literal words
             else:
-                obs["where"] = "cwd keyword"
+                toks = [cmd]                     # shell=False with a string: the program path itself
+            obs["cmd"] = (cmd if isinstance(cmd, str) else " ".join(map(str, cmd))).replace(root, ROOT)[:300]
+            obs["shell"] = shell
+            if toks:
+                prog = os.path.basename(toks[0])
+                dirs, outs = [], []
+                if prog == "sbatch":
+                    htoks = _header_tokens(script, "#SBATCH") if script else []
+                    dirs = _opt_values(htoks, ("-D",), ("--chdir", "--workdir")) + \
+                        _opt_values(toks, ("-D",), ("--chdir", "--workdir"))
+                    outs = _opt_values(htoks + toks, ("-o", "-e"), ("--output", "--error"))
+                    pos = _positional_words(toks[1:], ("-D", "--chdir", "--workdir", "--reservation", "-o", "-e",
+                                                       "--output", "--error"))
+                    obs["script"] = canon(pos[0]) if pos else None
+                elif prog == "bsub":
+                    htoks = _header_tokens(script, "#BSUB") if script else []
+                    dirs = _opt_values(htoks, ("-cwd",), ()) + _opt_values(toks, ("-cwd",), ())
+                    outs = _opt_values(htoks + [x for x in toks if x != "<"], ("-o", "-e", "-oo", "-eo"), ())
+                    obs["script"] = canon(toks[toks.index("<") + 1]) if "<" in toks[:-1] else None
+                else:
+                    obs["script"] = canon(toks[0])
+                if dirs:                     # the command line wins over the header, the last option wins
+                    d = dirs[-1]
+                    obs["where"] = "directory option"
+                    obs["cwd"] = canon(d if os.path.isabs(d) or kw_cwd is None else os.path.join(kw_cwd, d))
+                    if not os.path.isabs(d) and kw_cwd is None:
+                        obs["cwd"] = None
+                else:
+                    obs["where"] = "cwd keyword"
+                    obs["cwd"] = canon(kw_cwd)
+                obs["outs"] = [canon(o.replace("%J", "4711").replace("%j", "4711")) for o in outs] + \
+                    [canon(o) for o in opened]
+            else:
+                obs["where"] = "unreadable shell command line"
                 obs["cwd"] = canon(kw_cwd)
-            obs["outs"] = [canon(o.replace("%J", "4711").replace("%j", "4711")) for o in outs] + \
-                [canon(o) for o in opened]
-            obs["cmd"] = " ".join(toks).replace(root, ROOT)[:300]
     except Exception as e:               # the stubs themselves against a mutated tree
-        obs["exc"] = obs["exc"] or ("harness:" + type(e).__name__)
+        obs["exc"], obs["phase"] = obs["exc"] or ("harness:" + type(e).__name__), obs["phase"] or "harness"
     finally:
         shutil.rmtree(base, ignore_errors=True)
     return obs
 
 
+def _positional_words(tokens, with_value):
+    res, i = [], 0
+    while i < len(tokens):
+        t_ = tokens[i]
+        if t_ in with_value:
+            i += 2
+        elif t_.startswith("-"):
+            i += 1
+        else:
+            res.append(t_)
+            i += 1
+    return res
+
+
+def submit_judged(o):
+    """A case is judged when the workspace and the script exist and submit was reached
+    (it started something or raised); set-up / header problems belong to other properties."""
+    return bool(o["ws"] and o["script_real"] and (o["started"] or o["phase"] == "submit"))
+
+
 def gallina_submit(obs):
-    return "mksobs %s %s %s" % (G.g_str(obs["ws"] or ""), g_ostr(obs["cwd"]), g_strs(obs["outs"]))
+    raised = obs["phase"] == "submit" and obs["exc"] is not None
+    return "mksobs %s %s %s %s %s %s" % (G.g_str(obs["ws"] or ""), G.g_bool(raised), g_ostr(obs["cwd"]),
+                                         g_strs(obs["outs"]), g_ostr(obs["script"]), G.g_str(obs["script_real"] or ""))
 
 
 def run_submit_stream(ck, rng, hist):
@@ -960,10 +1064,14 @@ def run_submit_stream(ck, rng, hist):
         obss = [run_submit(c, scratch) for c in cases]
     finally:
         shutil.rmtree(scratch, ignore_errors=True)
-    judged = [(c, o) for c, o in zip(cases, obss) if o["started"] and o["ws"]]
+    judged = [(c, o) for c, o in zip(cases, obss) if submit_judged(o)]
     for c, o in zip(cases, obss):
-        key = "submit:%s:%s" % (c["backend"], "raised:" + o["exc"] if o["exc"] and not o["started"] else
-                                 "started via " + str(o["where"]))
+        key = "submit:%s:%s" % (c["backend"], "raised in %s: %s" % (o["phase"], (o["exc"] or "").split(":")[0])
+                                 if o["exc"] and not o["started"] else "started via " + str(o["where"]))
+        hist[key] = hist.get(key, 0) + 1
+        key = "submit-name:%s%s" % ("hashed " if c["nick"] else "", c["combo"] if c["combo"] else c["step"])
+        hist[key] = hist.get(key, 0) + 1
+        key = "submit-root:" + str(c.get("root"))
         hist[key] = hist.get(key, 0) + 1
         ck.count("submit|" + json.dumps([c["backend"], sorted(c["run"].items(), key=str), c["nick"] is not None],
                                         default=str), nontrivial=bool(o["started"]))
@@ -971,9 +1079,13 @@ def run_submit_stream(ck, rng, hist):
     bad, errs = common.coq_failing("C10_submit", HEADER, "sobs", "submit_ok", lits)
     for i in bad:
         c, o = judged[i]
-        ck.violation("the job %s starts for a step with run keys %s is not started in the instance's workspace "
-                     "(effective working directory %r via %s) or its stdout/stderr leave it" %
-                     (c["backend"], json.dumps(c["run"], sort_keys=True, default=str), o["cwd"], o["where"]),
+        ck.violation("submit of %s for instance %r (workspace %r, run keys %s): %s" %
+                     (c["backend"], c["step"] + ("_" + c["combo"] if c["combo"] else ""), o["ws"],
+                      json.dumps(c["run"], sort_keys=True, default=str),
+                      ("raised " + o["exc"]) if o["exc"] and o["phase"] == "submit" else
+                      "job not started in the workspace (effective working directory %r via %s), or a stdout/stderr "
+                      "target %r is not a file directly in it, or the launcher is pointed at %r instead of the script" %
+                      (o["cwd"], o["where"], o["outs"], o["script"])),
                      dict(c, observed=o))
     for e in errs:
         ck.mismatch("coqc failed on cases file " + os.path.basename(e[0]), None, e[1])
@@ -1223,9 +1335,12 @@ def run(ck):
         "  Submit stream: for every back-end (local, slurm, lsf, each flux interface version) the real adapter writes "
         "the script of a generated step and submit(step, script, workspace) runs with the process layer / flux module "
         "stubbed; every optional run key varies (reservation, walltime absent/0/inf/h:m:s, qos, exclusive, gpus, "
-        "nodes, procs, cores per task, priority, nested, bank/queue, restart; batch reservation); submit_ok evaluated "
-        "in Coq on the effective working directory (directory option of sbatch/bsub, else cwd= keyword; jobspec.cwd) "
-        "and the stdout/stderr paths of the started job")
+        "nodes, procs, cores per task, priority, nested, bank/queue, restart; batch reservation), instance names with "
+        "( ) and blanks, raw labels with '/', '..', blanks under --hashws, study directories with blanks, quotes, $ & ; "
+        "( ); the stubbed Popen raises FileNotFoundError for a cwd= that is no directory; submit_ok evaluated in Coq: "
+        "submit does not raise, the effective working directory (directory option of sbatch/bsub as a POSIX shell reads "
+        "the command line, else cwd= keyword; jobspec.cwd) is the workspace, every declared stdout/stderr target is a "
+        "file directly in it, the launcher is pointed at the written script")
     ck.cov["traces_validated_against_impl"] = len(cases) + n_submit
     ck.cov["input_distribution"] = hist
 
@@ -1317,7 +1432,7 @@ def replay(ck, path):
         print("implementation:")
         print(json.dumps(o, indent=1, default=str))
         bad, errs = common.coq_failing("C10_replay_submit_cases", HEADER, "sobs", "submit_ok", [gallina_submit(o)])
-        if errs or bad or not (o["started"] and o["ws"]):
+        if errs or bad or not submit_judged(o):
             print("VIOLATION property=C10 replay=%s%s" % (path, "" if bad else " no-failing-input-found"))
             return 1
         print("C10 ok (replay): the job is started in the workspace, stdout/stderr stay inside it")
